@@ -79,14 +79,16 @@ Proof. destruct c; cbn; [apply hb_nonneg|lia]. Qed.
 Lemma one_nonneg k k' : 0 <= one k k' <= 1.
 Proof. destruct k, k'; cbn; lia. Qed.
 
-Lemma held_nonneg k p g : wfpc p -> 0 <= g -> 0 <= held k p g.
+(* the enter that made the group non-empty was not made under an outstanding enter (proved with the invariant) *)
+Definition wfpc2 (p : pc) : Prop := wfpc p /\ p <> PEnterRetain BE.
+Lemma held_nonneg k p g : wfpc2 p -> 0 <= g -> 0 <= held k p g.
 Proof.
-  intros W G. destruct p; cbn [wfpc] in *;
+  intros [W NE] G. destruct p; cbn [wfpc] in *;
     repeat match goal with
            | b : bsrc |- _ => destruct b
            | c : kont |- _ => destruct c
            end; destruct k; cbn [held held0 hb hk one]; unfold wfb in *; try nia;
-    exfalso; intuition congruence.
+    exfalso; try (apply NE; reflexivity); intuition congruence.
 Qed.
 
 (* ------------------------------------------------------------------ bit facts about the group word *)
@@ -137,8 +139,8 @@ Proof.
 Qed.
 Lemma wf_call_pc e p : call_pc e = Some p -> wfpc p.
 Proof.
-  unfold call_pc, borrow_of.
-  assert (Wb : wfb (if ea e / 100 =? 0 then BX else BI)) by (destruct (ea e / 100 =? 0); discriminate).
+  assert (Wb : wfb (borrow_of e)) by (unfold borrow_of; destruct (ea e / 100 =? 0); [|destruct (ea e / 100 =? 1)]; discriminate).
+  unfold call_pc. set (b := borrow_of e) in *. clearbody b.
   repeat match goal with
          | |- context [if ?c then _ else _] => destruct c eqn:?
          end; intros H; try discriminate; injection H as <-; cbn; auto; try lia;
@@ -199,13 +201,13 @@ Definition Greg (r : greg -> Z) (pv : kind -> Z) : Prop :=
   (r NFIN = (if (r DISP =? 1) && finset r then 1 else 0) /\ (r NFIN = 1 -> r FINCTX = r CTX /\ r FINQ = r TQ)) /\
   (r CRASH = 0 /\ r XREF < MAXC /\ r IREF < MAXC) /\
   (* whoever owes a retain is inside a call that borrowed a reference *)
-  pv KB = pv KBX + pv KBI - pv KPE - pv KPN /\
+  (pv KB = pv KBX + pv KBI - pv KPE /\ pv KB2 = pv KBX + pv KBI + pv KBE - pv KPN) /\
   (* a borrowed reference is there: while calls borrow a level, its owners keep at least one reference of that level *)
-  (borrowed_ok (pv KBX) (r XPOOL) /\ borrowed_ok (pv KBI) (r IPOOL)).
+  (borrowed_ok (pv KBX) (r XPOOL) /\ borrowed_ok (pv KBI) (r IPOOL) /\ borrowed_ok (pv KBE) (r EPOOL)).
 
 Definition hf (s : gst) (k : kind) : Z -> Z := fun t => held k (pcs s t) (gn s t).
 Definition Binv (s : gst) : Prop := forall k, bounded (hf s k) (priv s k).
-Definition Tinv (s : gst) : Prop := forall t, wfpc (pcs s t) /\ 0 <= gn s t.
+Definition Tinv (s : gst) : Prop := forall t, wfpc2 (pcs s t) /\ 0 <= gn s t.
 Definition Inv (s : gst) : Prop := Greg (regs s) (priv s) /\ Binv s /\ Tinv s.
 
 Lemma Inv_init : Inv init_state.
@@ -216,7 +218,7 @@ Proof.
     induction l as [|a l IH]; cbn [sumf]; [lia|].
     inversion ND as [|? ? ? ND']; subst. specialize (IH ND').
     assert (E : held k PIdle 0 = 0) by (destruct k; reflexivity). rewrite E in *. lia.
-  - intros t. cbn. split; [exact I|lia].
+  - intros t. cbn. split; [split; [exact I|discriminate]|lia].
 Qed.
 
 Lemma s32_small x : -2147483648 <= x < 2147483648 -> s32 x = x.
@@ -263,8 +265,8 @@ Proof.
   destruct (Z.ltb_spec old (-1)) as [E3|E3]; cbn [negb]; intros H; injection H as <-; [right; left; auto|].
   right; right. split; [reflexivity|lia].
 Qed.
-Lemma hb_wf b : wfb b -> hb KBX b + hb KBI b = 1.
-Proof. destruct b; cbn; intros H; [reflexivity|reflexivity|exfalso; apply H; reflexivity]. Qed.
+Lemma hb_wf b : wfb b -> hb KBX b + hb KBI b + hb KBE b = 1.
+Proof. destruct b; cbn; intros H; [reflexivity|reflexivity|reflexivity|exfalso; apply H; reflexivity]. Qed.
 
 Arguments hb k b : simpl nomatch.
 Ltac split_ifs H :=
@@ -274,7 +276,7 @@ Ltac split_ifs H :=
 Ltac simp_goal :=
   cbn [is_crash apply_ups setr greg_id Z.eqb Pos.eqb held held0 hb hk one fst snd app b2z].
 Ltac spec_kinds HL :=
-  pose proof (HL KX); pose proof (HL KI); pose proof (HL KBX); pose proof (HL KBI); pose proof (HL KE); pose proof (HL KQ); pose proof (HL KPE);
+  pose proof (HL KX); pose proof (HL KI); pose proof (HL KBX); pose proof (HL KBI); pose proof (HL KBE); pose proof (HL KB2); pose proof (HL KE); pose proof (HL KQ); pose proof (HL KPE);
   pose proof (HL KPN); pose proof (HL KD); pose proof (HL KXD); pose proof (HL KDP); pose proof (HL KB).
 Lemma Greg_bounds r pv : Greg r pv -> (forall k, 0 <= pv k) ->
   (-1 <= r XREF < 2147483647 /\ -1 <= r IREF < 2147483647) /\ pv KX <= r XREF + 1 /\ pv KI <= r IREF + 1.
@@ -293,7 +295,7 @@ Ltac b_facts :=
   repeat match goal with b : bsrc |- _ =>
     lazymatch goal with
     | H : 0 <= hb KBX b |- _ => fail
-    | _ => pose proof (hb_nonneg KBX b); pose proof (hb_nonneg KBI b)
+    | _ => pose proof (hb_nonneg KBX b); pose proof (hb_nonneg KBI b); pose proof (hb_nonneg KBE b)
     end end;
   repeat match goal with H : wfb ?b |- _ => apply hb_wf in H end.
 Ltac leave_facts :=
@@ -305,14 +307,17 @@ Ltac borrow_facts :=
              lazymatch goal with
              | H : hb KBX b <= r XPOOL |- _ => fail
              | _ => assert (hb KBX b <= r XPOOL) by (unfold borrowed_ok in *; lia);
-                    assert (hb KBI b <= r IPOOL) by (unfold borrowed_ok in *; lia)
+                    assert (hb KBI b <= r IPOOL) by (unfold borrowed_ok in *; lia);
+                    assert (hb KBE b <= r EPOOL) by (unfold borrowed_ok in *; lia)
              end
          end.
 Ltac borrow_facts1 :=
   try match goal with HX : borrowed_ok (?pv KBX) (?r XPOOL), H : 1 <= ?pv KBX |- _ =>
         assert (1 <= r XPOOL) by (unfold borrowed_ok in HX; lia) end;
   try match goal with HI : borrowed_ok (?pv KBI) (?r IPOOL), H : 1 <= ?pv KBI |- _ =>
-        assert (1 <= r IPOOL) by (unfold borrowed_ok in HI; lia) end.
+        assert (1 <= r IPOOL) by (unfold borrowed_ok in HI; lia) end;
+  try match goal with HE : borrowed_ok (?pv KBE) (?r EPOOL), H : 1 <= ?pv KBE |- _ =>
+        assert (1 <= r EPOOL) by (unfold borrowed_ok in HE; lia) end.
 Ltac prep :=
   unfold Greg, finset, MAXC, MAXE, f_OS_OBJECT_GLOBAL_REFCNT in *; conj_hyps; b_facts.
 Ltac finish :=
@@ -408,7 +413,7 @@ Lemma call_cases e p : call_pc e = Some p ->
 Proof.
   unfold call_pc, borrow_of, OP_RETAIN, OP_RELEASE, OP_ENTER, OP_LEAVE, OP_NOTIFY, OP_SETCTX, OP_SETFIN, OP_SETTQ,
     OP_IRETAIN, OP_IRELEASE, OP_WEAK. intros H. cbv zeta.
-  split; [destruct (ea e / 100 =? 0); discriminate|].
+  split; [destruct (ea e / 100 =? 0); [|destruct (ea e / 100 =? 1)]; discriminate|].
   destruct ((ea e <? 0) || (200 <=? ea e)); [discriminate|].
   destruct (Z.eqb_spec (ea e mod 100) 1) as [E|_]; [destruct (ea e / 100 =? 0); [|discriminate]; injection H as <-; auto|].
   destruct (Z.eqb_spec (ea e mod 100) 2) as [E|_]; [destruct (ea e / 100 =? 0); [|discriminate]; injection H as <-; auto|].
@@ -450,7 +455,7 @@ Proof.
   destruct (effect (regs s) (priv s) (gn s t) (pcs s t) e) as [[ups g']|] eqn:Hef; [|discriminate].
   injection Hs as <-. cbn [regs priv gn]. rewrite upd_same.
   pose proof (fun k => held_le s t k HB) as HL. pose proof (fun k => priv_nonneg s k HB) as HP.
-  destruct (HT t) as [HW Hg].
+  destruct (HT t) as [[HW HNE] Hg].
   unfold tstep, effect in *.
   destruct (noise e).
   { (* events of other code: nothing changes *)
